@@ -33,12 +33,13 @@ COMBINED = [("leaves..tutorial_get..explicit_noop", "leaves..tutorial_get..impli
 
 
 # selections from the extended scratch suite (graphx.EXTRA_TESTS): two-object dependencies
-EXT_RESTRS = ["ext:leaves..xt_both", "ext:leaves..xt_mixed", "ext:leaves..xt_chain", "ext:leaves", "ext:leaves..xt_both,leaves..tutorial3",
+EXT_RESTRS = ["ext:leaves..xt_deep", "ext:leaves..xt_deep,leaves..tutorial_finale", "ext:leaves..xt_both", "ext:leaves..xt_mixed", "ext:leaves..xt_chain", "ext:leaves", "ext:leaves..xt_both,leaves..tutorial3",
               "ext:leaves..xt_mixed,leaves..xt_both"]
 
 
 CORPUS = [("leaves..tutorial1", "net5 net1", {}),                      # restricted worker first: fixed fc23fe8
-          ("leaves..tutorial_gui", "net5 net3 net1", {"vm1": "only Fedora\n"})]
+          ("leaves..tutorial_gui", "net5 net3 net1", {"vm1": "only Fedora\n"}),
+          ("ext:leaves", "net1 net2", graphx.VMR)]                        # every test of the extended scratch suite
 
 
 def family(rng, n, mode, thorough=False):
